@@ -1,6 +1,27 @@
 """JSON term (harness/src/json.rs) -> Coq term text."""
 
 
+def _rle(bs):
+    """long byte strings (MiB-size blocks) as run-length segments: (brep n v ++ [..] ++ ...); `brep` is defined in the
+    header of every cases file (tools/coqeval.py)"""
+    segs, lit, i, n = [], [], 0, len(bs)
+    while i < n:
+        k = i
+        while k < n and bs[k] == bs[i]:
+            k += 1
+        if k - i >= 64:
+            if lit:
+                segs.append("[" + ";".join(map(str, lit)) + "]")
+                lit = []
+            segs.append(f"brep {k - i} {bs[i]}")
+        else:
+            lit.extend(bs[i:k])
+        i = k
+    if lit:
+        segs.append("[" + ";".join(map(str, lit)) + "]")
+    return "(" + " ++ ".join(segs) + ")"
+
+
 def to_coq(j):
     if isinstance(j, bool):
         return "true" if j else "false"
@@ -11,6 +32,8 @@ def to_coq(j):
     if isinstance(j, dict):
         if "b" in j:
             h = j["b"]
+            if len(h) > 8192:
+                return _rle(bytes.fromhex(h))
             return "[" + ";".join(str(int(h[i:i + 2], 16)) for i in range(0, len(h), 2)) + "]"
         if "c" in j:
             if not j["a"]:
